@@ -291,6 +291,8 @@ class CallMixin(object):
         result = None
         if c.returns_ is not None:
             result = fresh_of_type(self, c.returns_, "ret_" + short.split(".")[-1])
+            if callee.endswith("_get_min_max_of_children"):
+                self.path.minmax_result = result
             if callee.endswith("PyramidIO.read_image"):
                 if not hasattr(self.path, "read_results"):
                     self.path.read_results = []
@@ -531,6 +533,8 @@ class CallMixin(object):
                 items = self.iter_concrete(items[0])
             if not items:
                 raise PyRaise("ValueError", origin="%s() of empty sequence" % name)
+            # optional values that reached a min()/max() were tested 'is not None' by the code
+            items = [it.value if isinstance(it, OptionalVal) else it for it in items]
             res = items[0]
             for x in items[1:]:
                 c = ops.compare(self, ">" if name == "max" else "<", x, res)
